@@ -16,8 +16,8 @@ from vlib import Result, f2b, enc_list, close
 
 PROP = 'C08'
 META = {
-    'level_text': 'Lean 4 theorems, for every linearly ordered field, every grid, every distribution and operation sequences of every length (induction over the operation list), about an executable model of reset / createBackup / revert / changeSizeClasses / addSizeClasses / adjustSizeClassesEuler / UpdatePBMEuler / LoadDistribution / enableRecording / record / setPSDtoRecordedTime / saveRecordedPSD / loadRecordedPSD and the ...FromN moment functions: the consistency invariant (class count >= 1, array lengths, boundaries = linspace(min,max) strictly increasing from min to max, centres = midpoints, populations >= 0, consistent backup) holds after construction and is preserved by every operation under its stated precondition (inv_init, inv_step, inv_run, inv_spec); extension leaves existing boundaries, populations, centres and every moment unchanged; re-meshing preserves the third moment iff (newV != 0 or M3 = 0), and the unrestricted claim is refuted on concrete rational witnesses (remesh_can_vanish, adjust_can_vanish, adjust_can_vanish_224); adaptive cap; reset; backup/revert across operations; every recorded row stays a consistent grid and setPSDtoRecordedTime (first / last / blended record) preserves the invariant; moment purity, also stated along histories (moments_after_run, moments_history_independent: after ANY valid operation sequence, including revert and loading a record, every ...FromN function is the moment of the supplied N on the CURRENT boundaries).  The model is tied to PopulationBalance.py by differential correspondence on random operation sequences on every run (every attribute after every operation) and the predicates are also evaluated directly on the implementation.',
-    'level_note': 'Trusted: Lean kernel + Mathlib, axioms propext/Classical.choice/Quot.sound (the concrete witnesses are evaluated by the kernel, `decide +kernel`, no extra axioms); the hand model KawinV.Grid equals the NumPy code only as far as this run compared them (about 900 / 12000 operation sequences with interleaved moment queries); exact-field arithmetic instead of IEEE doubles (strict monotonicity of linspace and exact moment equality on extension are exact-field facts, monitored on doubles to tolerance); NaN/inf populations and NumPy length-1 broadcasting are outside the model; radii are assumed non-negative (cMin >= 0), and positive (cMin > 0) while recording, because _grabPSDfromIndex counts non-zero boundaries; saveRecordedPSD/loadRecordedPSD are modelled as an exact copy of the three arrays (the npz layer is trusted).  The full claim "re-meshing preserves M3 whenever the new grid covers the populated range" is FALSE of the code (recorded finding remesh-vanish-no-new-centre-in-support); the theorem proved is the iff-characterisation.  adjustSizeClassesEuler can raise IndexError (PSDsize[int(minBins/2)] on a grid with fewer classes) and record()/UpdatePBMEuler can raise ValueError when the record is narrower than the grid (bins > maxBins, or adaptive binning switched off after records were taken): the model returns none there, the invariant theorem speaks about successful operations, and the oracle accepts exactly these raises in a valid stream; any other exception of the code under test is reported as a violation keyed by the operation and by the operation that last replaced the grid.',
+    'level_text': 'Lean 4 theorems, for every linearly ordered field, every grid, every distribution and operation sequences of every length (induction over the operation list), about an executable model of reset / createBackup / revert / changeSizeClasses / addSizeClasses / adjustSizeClassesEuler / UpdatePBMEuler / LoadDistribution / enableRecording / record / setPSDtoRecordedTime / saveRecordedPSD / loadRecordedPSD and the ...FromN moment functions: the consistency invariant (class count >= 1, array lengths, boundaries = linspace(min,max) strictly increasing from min to max, centres = midpoints, populations >= 0, consistent backup) holds after construction and is preserved by every operation under its stated precondition (inv_init, inv_step, inv_run, inv_spec); extension leaves existing boundaries, populations, centres and every moment unchanged; re-meshing preserves the third moment iff (newV != 0 or M3 = 0), and the unrestricted claim is refuted on concrete rational witnesses (remesh_can_vanish, adjust_can_vanish, adjust_can_vanish_224); adaptive cap; reset; backup/revert across operations; every recorded row stays a consistent grid - grids that start at R = 0 and one-class grids included - and setPSDtoRecordedTime (first / last / blended record) preserves the invariant; a restored record is exactly what was recorded (grab_restores_record, grab_restores_grid, record_then_restore: boundaries, populations, class count, min/max = first/last boundary); moment purity, also stated along histories (moments_after_run, moments_history_independent: after ANY valid operation sequence, including revert and loading a record, every ...FromN function is the moment of the supplied N on the CURRENT boundaries).  The model is tied to PopulationBalance.py by differential correspondence on random operation sequences on every run (every attribute after every operation) and the predicates are also evaluated directly on the implementation.',
+    'level_note': 'Trusted: Lean kernel + Mathlib, axioms propext/Classical.choice/Quot.sound (the concrete witnesses are evaluated by the kernel, `decide +kernel`, no extra axioms); the hand model KawinV.Grid equals the NumPy code only as far as this run compared them (about 900 / 12000 operation sequences with interleaved moment queries); exact-field arithmetic instead of IEEE doubles (strict monotonicity of linspace and exact moment equality on extension are exact-field facts, monitored on doubles to tolerance); NaN/inf populations and NumPy length-1 broadcasting are outside the model; radii are assumed non-negative (cMin >= 0; a lower end of exactly 0 is INCLUDED, also while recording: the model follows the repaired _grabPSDfromIndex of a549be2 - record length = position of the last non-zero boundary + 1 - and grab_restores_record / record_then_restore / record_inv / update_inv_any carry no positivity hypothesis; the pre-repair count is kept as grabOld with the witnesses grabOld_loses_last_class, grabOld_one_class_breaks and the general grabOld_zero_start_loses_class); saveRecordedPSD/loadRecordedPSD are modelled as an exact copy of the three arrays (the npz layer is trusted).  The full claim "re-meshing preserves M3 whenever the new grid covers the populated range" is FALSE of the code (recorded finding remesh-vanish-no-new-centre-in-support); the theorem proved is the iff-characterisation.  adjustSizeClassesEuler can raise IndexError (PSDsize[int(minBins/2)] on a grid with fewer classes) and record()/UpdatePBMEuler can raise ValueError when the record is narrower than the grid (bins > maxBins, or adaptive binning switched off after records were taken): the model returns none there, the invariant theorem speaks about successful operations, and the oracle accepts exactly these raises in a valid stream; any other exception of the code under test is reported as a violation keyed by the operation and by the operation that last replaced the grid.',
     'technique': 'Lean 4 proof over ordered fields (induction over operation sequences) + model/implementation differential correspondence on operation sequences + direct oracle with delta-debugging of failing sequences',
     'design_ref': 'DESIGN.md section 6, C08',
 }
@@ -31,7 +31,6 @@ ASSUMPTIONS = [
     'populations and radii are finite doubles; sequences are cut when a NaN/inf appears (only reachable from precondition-violating input)',
     'preconditions of the invariant theorem: class counts >= 1, cMin < max(10 cMin, cMax) for a re-mesh, minBins,maxBins >= 1 for the automatic adjustment, supplied distributions of the right length (update) and non-negative (direct assignment)',
     'threshold decisions (PSD > 1, < 1) are compared only when no population lies within 1e-9 (relative) of the threshold without being equal to it',
-    'while recording: cMin > 0 (a zero lower boundary is not counted by _grabPSDfromIndex and the last class of the record is lost)',
 ]
 TRUSTED = ['np.linspace / np.interp / np.histogram / np.amax semantics as modelled in KawinV.Grid (compared on every run)']
 
@@ -204,6 +203,21 @@ FIXED_CASES = [
     (dict(cMin=1e-10, cMax=1e-9, bins=20, minBins=10, maxBins=60),
      [['enablerec'], ['update', 'bump', 3], ['add', 7], ['update', 'lastfull', 4], ['mom', 3, 1], ['setrec', 'between', 5], ['mom', 3, 2],
       ['setrec', 'mid', 6], ['mom', 1, 3], ['setrec', 'before', 7], ['mom', 2, 4]], 'record-blend'),
+    # grids that START AT R = 0 while recording: restore at / after / between / before the recorded times, after save + load
+    (dict(cMin=0.0, cMax=3e-9, bins=6, minBins=3, maxBins=20),
+     [['enablerec'], ['update', 'lastfull', 3], ['setrec', 'exact', 1], ['mom', 3, 1], ['add', 2], ['update', 'bump', 4], ['setrec', 'after', 2],
+      ['setrec', 'mid', 5], ['setrec', 'between', 6], ['saverec'], ['reset', True], ['loadrec'], ['setrec', 'after', 3], ['setrec', 'before', 4]],
+     'record-restore-grid-from-0'),
+    # ... reached by re-meshing to cMin = 0
+    (dict(cMin=1e-10, cMax=1e-9, bins=8, minBins=4, maxBins=30),
+     [['update', 'bump', 3], ['change', 'zero', 'same', None, False, 5], ['enablerec'], ['update', 'lastfull', 6], ['add', 3], ['update', 'bump', 7],
+      ['setrec', 'exact', 3], ['setrec', 'after', 1], ['setrec', 'mid', 2]], 'record-restore-after-remesh-to-0'),
+    # one-class records (grid from 0 and from a positive radius)
+    (dict(cMin=0.0, cMax=1e-9, bins=1, minBins=1, maxBins=6),
+     [['enablerec'], ['update', 'uniform', 3], ['setrec', 'after', 1], ['record', 'fwd', 2], ['setrec', 'mid', 3], ['add', 1], ['update', 'uniform', 5],
+      ['setrec', 'between', 4], ['setrec', 'exact', 9]], 'record-restore-one-class-from-0'),
+    (dict(cMin=1e-10, cMax=1e-9, bins=1, minBins=1, maxBins=6),
+     [['enablerec'], ['update', 'uniform', 3], ['setrec', 'after', 1], ['setrec', 'mid', 3]], 'record-restore-one-class'),
 ]
 
 
@@ -340,9 +354,7 @@ def pre_ok(p, op):
     if t == 'adjust':
         return p.minBins >= 1 and p.maxBins >= 1
     if t == 'update':
-        return len(op[2]) == p.bins and bool(np.all(np.isfinite(op[2]))) and (not p._record or p.min > 0)
-    if t == 'record':
-        return (not p._record) or p.min > 0      # a zero lower boundary is not counted by _grabPSDfromIndex
+        return len(op[2]) == p.bins and bool(np.all(np.isfinite(op[2])))      # recording or not, lower end 0 included
     if t == 'setpsd':
         return len(op[1]) == p.bins and bool(np.all(op[1] >= 0))
     return True
@@ -509,6 +521,50 @@ def tmpdir():
         _TMP.append(tempfile.mkdtemp(prefix='c08rec_'))
         atexit.register(shutil.rmtree, _TMP[0], True)
     return _TMP[0]
+
+
+def rec_grid(rec, s0):
+    """(bounds, populations) of one entry of the harness's own list of records; the all-zero first record written by
+    enableRecording stands for the original empty grid"""
+    if rec[1] is None:
+        return np.linspace(s0['origMin'], s0['origMax'], s0['origBins'] + 1), np.zeros(s0['origBins'])
+    return rec[1], rec[2]
+
+
+def resize_ref(src_b, src_p, dst_b):
+    """documented re-expression of a record on the class boundaries of another one (setPSDtoRecordedTime): number density at the
+    old centres, linearly interpolated at the new centres (zero outside), times the new widths, rescaled to the old third moment"""
+    ssz = 0.5 * (src_b[1:] + src_b[:-1]); dsz = 0.5 * (dst_b[1:] + dst_b[:-1])
+    oldV = np.sum(src_p * ssz ** 3)
+    den = src_p / (src_b[1:] - src_b[:-1])
+    q = np.interp(dsz, ssz, den, left=0, right=0) * (dst_b[1:] - dst_b[:-1])
+    newV = np.sum(q * dsz ** 3)
+    return q * (oldV / newV) if newV != 0 else np.zeros(len(dsz))
+
+
+def expected_restore(my_recs, time, s0):
+    """what setPSDtoRecordedTime(time) must leave behind, from the harness's own copy of the records:
+    ('record', bounds, psd, involved) at or before the first / at or after the last recorded time: exactly that record;
+    ('blend', bounds, psd, involved, time of the earlier record) in between: the two neighbouring records on the boundaries of the one with more classes
+    (the later one on a draw), blended linearly in time.  `involved` = the (bounds, psd) pairs that were read."""
+    times = [r[0] for r in my_recs]
+    if time <= times[0]:
+        b, q = rec_grid(my_recs[0], s0)
+        return 'record', b, q, [(b, q)], None
+    if time >= times[-1]:
+        b, q = rec_grid(my_recs[-1], s0)
+        return 'record', b, q, [(b, q)], None
+    u = next(i for i, x in enumerate(times) if x > time)
+    l = u - 1
+    (ub, up), (lb, lp) = rec_grid(my_recs[u], s0), rec_grid(my_recs[l], s0)
+    ut, lt = times[u], times[l]
+    with np.errstate(all='ignore'):
+        if len(up) >= len(lp):
+            b = ub; lp2 = resize_ref(lb, lp, ub); up2 = up
+        else:
+            b = lb; up2 = resize_ref(ub, up, lb); lp2 = lp
+        q = (up2 - lp2) * (time - lt) / (ut - lt) + lp2
+    return 'blend', b, q, [(ub, up), (lb, lp)], lt
 
 
 def run_impl(init, recipes, res=None):
@@ -685,7 +741,17 @@ def run_impl(init, recipes, res=None):
                                    or len(p.PSDbounds) > mb + 1 or len(p.PSD) > mb)
                 except Exception:
                     allowed = False
-                if not allowed:
+                from0 = False
+                if t == 'setrec' and was_recording and my_recs and not allowed:
+                    try:
+                        from0 = any(len(b_) >= 2 and b_[0] == 0 for b_, _ in expected_restore(my_recs, op[1], s0)[3])
+                    except Exception:
+                        from0 = False
+                if from0:
+                    violate('restore-raises:grid-from-0:' + err.split(':')[0],
+                            'setPSDtoRecordedTime raised (%s) while restoring a record of a grid that starts at R = 0 (every operation so far met its precondition; operations before: %s)'
+                            % (err, '>'.join(hist[-4:-1]) or 'construction'), err, at=i)
+                elif not allowed:
                     tail = '>'.join(hist[-4:-1]) or 'construction'
                     violate('raises:%s:%s-after:%s' % (t, err.split(':')[0], replacer),
                             '%s raised (%s) although every operation so far met its precondition; the grid was last replaced by %s (operations before: %s)'
@@ -812,17 +878,50 @@ def run_impl(init, recipes, res=None):
         if t in ('enablerec', 'record', 'update', 'loadrec') and valid and my_recs is not None and post['nrows'] != len(my_recs):
             violate('record-count', 'the number of stored records is not the number of record() calls since enableRecording', post['nrows'], len(my_recs), at=at)
         if t == 'setrec' and valid and was_recording and my_recs:
-            want = None
-            if op[1] <= my_recs[0][0]:
-                want = my_recs[0]
-            elif op[1] >= my_recs[-1][0]:
-                want = my_recs[-1]
-            if want is not None:
-                wb = np.linspace(s0['origMin'], s0['origMax'], s0['origBins'] + 1) if want[1] is None else want[1]
-                wp = np.zeros(s0['origBins']) if want[2] is None else want[2]
-                if not (np.array_equal(post['bounds'], wb) and np.array_equal(post['psd'], wp) and post['bins'] == len(wp)):
-                    violate('setrec-does-not-restore-record', 'setPSDtoRecordedTime at/beyond the first/last recorded time did not give back that record',
-                            summary(post), dict(bins=len(wp), bounds_head=wb[:3].tolist(), psd_sum=float(np.sum(wp))), at=at)
+            # ORACLE of the restore, from the harness's own copy of what was recorded (never from the object's arrays):
+            #   at / before the first, at / after the last recorded time: EXACTLY that record - boundaries, populations, class
+            #   count, stated min / max = first / last boundary (a first boundary of exactly 0 included, one-class records included);
+            #   in between: the documented blend of the two neighbouring records
+            times_ok = all(a <= b for a, b in zip([r[0] for r in my_recs], [r[0] for r in my_recs][1:]))
+            try:
+                kind, wb, wp, involved, lt_ = expected_restore(my_recs, op[1], s0)
+            except Exception:
+                kind = None
+            if kind == 'blend' and not times_ok:
+                kind = None       # record times that go back (malformed stream): which two records are blended is not specified
+            if kind is not None:
+                from0 = any(len(b_) >= 2 and b_[0] == 0 for b_, _ in involved)
+                nwant = len(wp)
+                got = dict(summary(post), bounds_tail=post['bounds'][-2:].tolist())
+                req = dict(kind=kind, bins=nwant, min=float(wb[0]), max=float(wb[-1]), bounds_head=wb[:3].tolist(), bounds_tail=wb[-2:].tolist(),
+                           psd_head=wp[:4].tolist(), psd_sum=float(np.sum(wp)), time=op[1], recorded_times=[r[0] for r in my_recs][:8])
+                if res is not None:
+                    res.count('restore:%s%s%s' % (kind, ':grid-from-0' if from0 else '', ':one-class' if nwant == 1 else ''))
+                if post['bins'] < nwant or len(post['psd']) < nwant or len(post['bounds']) < nwant + 1:
+                    violate('restore-loses-classes:grid-from-0' if from0 else 'restore-loses-classes',
+                            'setPSDtoRecordedTime gave back fewer classes than the record holds%s' % (' (the recorded grid starts at R = 0)' if from0 else ''),
+                            got, req, at=at)
+                elif kind == 'record':
+                    if not (np.array_equal(post['bounds'], wb) and np.array_equal(post['psd'], wp) and post['bins'] == nwant
+                            and post['min'] == wb[0] and post['max'] == wb[-1]):
+                        violate('setrec-does-not-restore-record', 'setPSDtoRecordedTime at/beyond the first/last recorded time did not give back that record (boundaries, populations, class count, min/max = first/last boundary)',
+                                got, req, at=at)
+                else:
+                    bad = None
+                    if post['bins'] != nwant or len(post['psd']) != nwant:
+                        bad = 'class count is not that of the neighbouring record with more classes'
+                    elif not (np.array_equal(post['bounds'], wb) and post['min'] == wb[0] and post['max'] == wb[-1]):
+                        bad = 'boundaries / min / max are not those of the neighbouring record with more classes'
+                    elif np.all(np.isfinite(wp)) and not arr_close(post['psd'], wp, 1e-9):
+                        bad = 'populations are not the time-linear blend of the two neighbouring records'
+                    if bad:
+                        violate('setrec-blend-not-documented-blend', 'setPSDtoRecordedTime between two recorded times: ' + bad, got, req, at=at)
+                    elif np.array_equal(involved[0][0], involved[1][0]) and op[1] == lt_:
+                        # exactly AT an interior recorded time, next record on the same boundaries: that record comes back (to rounding)
+                        lb_, lp_ = involved[1]
+                        if not arr_close(post['psd'], lp_, 1e-9):
+                            violate('setrec-does-not-restore-record', 'setPSDtoRecordedTime exactly at an interior recorded time (same boundaries before and after) did not give back that record',
+                                    got, dict(req, psd_head=lp_[:4].tolist(), psd_sum=float(np.sum(lp_))), at=at)
         if t in ('setrec', 'loadrec', 'enablerec'):
             noise = None if t != 'setrec' else noise
         if t == 'setrec' and was_recording:
@@ -1038,10 +1137,18 @@ def gen_sequences(ctx, nseq, maxlen):
         if stream == 'malformed' and ctx.rng.random() < 0.4:
             recipes.insert(0, ['revert'])
         if stream == 'recording':
-            if init['cMin'] == 0.0:
-                init['cMin'] = 1e-10; init['cMax'] = max(init['cMax'], 1e-9)
+            # grids that START AT R = 0 (constructed so, or re-meshed to cMin = 0 by a 'change' recipe) and one-class
+            # grids are part of the valid recording stream: a record is as long as the position of its last non-zero boundary
+            if ctx.rng.random() < 0.4:
+                init['cMin'] = 0.0
+            if ctx.rng.random() < 0.15:
+                init['bins'] = 1
             init['maxBins'] = max(init['maxBins'], 2 * init['bins'])      # room in the record for a few extensions
             recipes.insert(ctx.rng.randint(0, min(2, len(recipes))), ['enablerec'])
+            if ctx.rng.random() < 0.5:      # make sure something is recorded and restored early in the sequence
+                k = ctx.rng.randint(1, min(4, len(recipes)))
+                recipes[k:k] = [['update', ctx.rng.choice(['bump', 'lastfull', 'uniform', 'sparse']), ctx.rng.getrandbits(32)],
+                                ['setrec', ctx.rng.choice(['exact', 'after', 'between', 'mid', 'before']), ctx.rng.getrandbits(32)]]
         if stream != 'malformed':      # loading before anything was saved only ends the sequence: keep that for the malformed stream
             seen, keep = set(), []
             for rc in recipes:
@@ -1059,7 +1166,10 @@ def corr(ctx, nseq=None, oracle_only=False):
     res.rule = ('operation sequences (length 1-40 quick / up to 400 thorough) from a grammar over reset/add/change/adjust/update/backup/'
 'revert/direct assignment/LoadDistribution/adaptive switch/enableRecording/record/setPSDtoRecordedTime/saveRecordedPSD/'
                 'loadRecordedPSD, with moment queries (all ...FromN variants, orders 0-3, each evaluated twice) interleaved before and after every '
-                'grid-replacing operation; five streams (random, KWN-like growth, KWN-like dissolution, recording, malformed: revert first, '
+                'grid-replacing operation; five streams (random, KWN-like growth, KWN-like dissolution, recording - 40 % of these grids start at R = 0, '
+                'more reach cMin = 0 by changeSizeClasses(0, ...), 15 % have one class; restore before / at / between / after the recorded times, '
+                'save + load of records; the restored state is compared with the harness\'s own copy of the records: exact record at/beyond '
+                'the ends, documented blend in between -, malformed: revert first, '
                 'bins=1/0, minBins>maxBins, empty histogram, wrong-length or negative distributions, zero-width grid, record times going back) '
                 '+ fixed witness sequences; every attribute compared after every operation; non-trivial = the sequence re-meshes, extends or '
                 'reverts a populated grid; distinct = (initial grid, recipe list)')
